@@ -551,6 +551,8 @@ class Gen:
                 a["target"] = remap[a["target"]]
             if "defs" in a:
                 a["defs"] = [remap[d] for d in a["defs"]]
+            if "other" in a:
+                a["other"] = remap[a["other"]]
             uses = [remap[u] for u in cop["uses"]]
             rk, meta, name = cop.get("rk", "none"), cop.get("meta"), cop.get("name")
             oid = self.add(cop["kind"], a, uses, s, rk, meta, name)
@@ -1496,6 +1498,8 @@ def norm_closure(byid, cl):
             a["target"] = pos[a["target"]]
         if "defs" in a:
             a["defs"] = [pos[d] for d in a["defs"]]
+        if "other" in a:
+            a["other"] = pos[a["other"]]
         return a
 
     return [{"id": p, "kind": byid[j]["kind"], "a": remap(byid[j]["a"]), "uses": sorted(pos[u] for u in byid[j]["uses"]), "s": 0} for p, j in enumerate(cl)]
